@@ -225,7 +225,12 @@ package varmq
 // Close of a result-batch member: as groupJob.Close, and the stream is closed exactly when the counter reaches zero.
 //@ func resultGroupJob.Close
 //@   assert [closed-before-release] before call helpers.WgCounter.Done: gj.resultJob.job.status == closed
-//@   props C05 C08 C10 C16
+//@   props C05 C08 C10 C16 C05@B2 C08@B2
+// B2-lite (G5): the stream is closed only by the member whose own decrement took the batch counter to zero -- a zero read after Done()
+// may be another finisher's doing, and then both would close the stream (panic: close of closed channel)
+//@   ghost entry: $last := false
+//@   ghost after call helpers.WgCounter.Done: $last := gj.wgc.count == 0
+//@   assert [b2-close-last] before call helpers.Response.Close: $last
 //@   requires RI_member($addr(gj.resultJob.job)) && MemberOK(gj.resultJob.job.status, gj.wgc) && StreamOK(gj.resultJob.Response, gj.wgc)
 //@   modifies gj.resultJob.job.status, gj.wgc.count, gj.wgc.wg, $acks(gj.resultJob.job.queue), $lastAck(gj.resultJob.job.queue), $alloc, $wgdone[0], $open(gj.resultJob.Response.ch)
 //@   ensures [refused] (old(gj.resultJob.job.status) == processing || old(gj.resultJob.job.status) == closed) ==> result != nil && gj.wgc.count == old(gj.wgc.count)
@@ -259,7 +264,12 @@ package varmq
 
 //@ func errorGroupJob.Close
 //@   assert [closed-before-release] before call helpers.WgCounter.Done: gj.errorJob.job.status == closed
-//@   props C05 C08 C10 C16
+//@   props C05 C08 C10 C16 C05@B2 C08@B2
+// B2-lite (G5): the stream is closed only by the member whose own decrement took the batch counter to zero -- a zero read after Done()
+// may be another finisher's doing, and then both would close the stream (panic: close of closed channel)
+//@   ghost entry: $last := false
+//@   ghost after call helpers.WgCounter.Done: $last := gj.wgc.count == 0
+//@   assert [b2-close-last] before call helpers.Response.Close: $last
 //@   requires RI_member($addr(gj.errorJob.job)) && MemberOK(gj.errorJob.job.status, gj.wgc) && StreamOK(gj.errorJob.Response, gj.wgc)
 //@   modifies gj.errorJob.job.status, gj.wgc.count, gj.wgc.wg, $acks(gj.errorJob.job.queue), $lastAck(gj.errorJob.job.queue), $alloc, $wgdone[0], $open(gj.errorJob.Response.ch)
 //@   ensures [refused] (old(gj.errorJob.job.status) == processing || old(gj.errorJob.job.status) == closed) ==> result != nil && gj.wgc.count == old(gj.wgc.count)
